@@ -256,6 +256,11 @@ def gen_new(rng, src_lines, ln, col, end_ln, end_col, spans):
     """replacement text + its generator class"""
     ind_line = src_lines[ln]
     ind = ind_line[:len(ind_line) - len(ind_line.lstrip())]
+    old_txt = splice_get(src_lines, ln, col, end_ln, end_col)
+    if rng.random() < 0.12 and old_txt:
+        sw = bytechar_swap(rng, old_txt)
+        if sw is not None:
+            return sw
     c = rng.random()
     if c < 0.10:
         old = '\n'.join(src_lines[ln:end_ln + 1])
@@ -288,6 +293,35 @@ def gen_new(rng, src_lines, ln, col, end_ln, end_col, spans):
         body = rng.choice(SIMPLE)
         return f'{h}\n{ind}    {body}' + rng.choice(['', '\n' + ind]), 'block'
     return ' ' * rng.randint(0, 8), 'indent-only'
+
+
+def bytechar_swap(rng, old):
+    """a text of the same kind with the same number of UTF-8 BYTES and another number of characters, or the same number
+    of characters and another number of bytes; for identifiers and plain quoted strings"""
+    q = ''
+    body = old
+    if len(old) >= 2 and old[0] in '\'"' and old[-1] == old[0] and old[0] not in old[1:-1] and '\\' not in old and '\n' not in old:
+        q, body = old[0], old[1:-1]
+    elif not old.isidentifier():
+        return None
+    nb, nc = len(body.encode()), len(body)
+    if not nc:
+        return None
+    if rng.random() < 0.7:
+        if nb == nc:                                     # ASCII -> fewer characters, same bytes
+            if nb < 2:
+                return None
+            k = rng.choice([2, 3]) if nb >= 3 else 2
+            new = {2: '\u00e9', 3: '\u65e5'}[k] + body[k:] if q or body[k:].isidentifier() or not body[k:] else None
+            if new is None or (not q and not new.isidentifier()):
+                return None
+        else:                                            # non-ASCII -> ASCII of the same byte length
+            new = 'abcdefgh'[:nb] if nb <= 8 else 'a' * nb
+        cls = 'equal-bytes/other-chars'
+    else:
+        new = ('\u00fc' if body[0].isascii() else 'x') + body[1:]      # same characters, other bytes
+        cls = 'equal-chars/other-bytes'
+    return q + new + q, cls
 
 
 def splice_get(lines, ln, col, end_ln, end_col):
@@ -601,6 +635,80 @@ def cpy_bloc(tree, lines, path):
     return [ln, col, eln, ecol]
 
 
+def _astpath(p):
+    from fst.common import astfield
+    return [astfield(f, i) for f, i in p]
+
+
+def respell(rng, rect, lines):
+    """another spelling of the same rectangle: negative from the end of the source / of ITS line, 'end', or out of range
+    (clipped); plain Python index semantics decide what each spelling means"""
+    ln, col, end_ln, end_col = rect
+    n = len(lines)
+
+    def sp_ln(i):
+        c = rng.random()
+        if c < 0.5:
+            return i
+        if c < 0.8:
+            return i - n
+        return 'end' if i == n - 1 else i
+
+    def sp_col(c_, i):
+        l = len(lines[i])
+        k = rng.random()
+        if k < 0.45:
+            return c_
+        if k < 0.75 and c_ < l:
+            return c_ - l                      # negative: from the end of line `i`
+        if c_ == l:
+            return rng.choice(['end', l + rng.randint(1, 9)])      # 'end' or beyond the end (clipped)
+        return c_
+
+    return [sp_ln(ln), sp_col(col, ln), sp_ln(end_ln), sp_col(end_col, end_ln)]
+
+
+def loc_mismatch(root):
+    """first node whose reported character location (.loc, and .bloc for block statements) is not the one that follows
+    from its own CPython byte positions; None if all agree"""
+    lines = root.src.split('\n')
+    for a in ast.walk(root.a):
+        if getattr(a, 'end_col_offset', None) is None or not hasattr(a, 'f'):
+            continue
+        try:
+            exp = (a.lineno - 1, char_col(lines[a.lineno - 1], a.col_offset), a.end_lineno - 1,
+                   char_col(lines[a.end_lineno - 1], a.end_col_offset))
+            got = tuple(a.f.loc)
+            if got != exp:
+                return ['loc', a.__class__.__name__, list(got), list(exp)]
+            if a.__class__.__name__ in BLOCK_KINDS:
+                bl, bc, bel, bec = exp
+                if lines[bel].find('#', bec) != -1:
+                    bec = len(lines[bel])
+                decos = getattr(a, 'decorator_list', None)
+                if decos:
+                    d = decos[0]
+                    bl = d.lineno - 1
+                    bc = lines[bl].rfind('@', 0, char_col(lines[bl], d.col_offset))
+                got = tuple(a.f.bloc)
+                if bc >= 0 and got != (bl, bc, bel, bec):
+                    return ['bloc', a.__class__.__name__, list(got), [bl, bc, bel, bec]]
+        except Exception as e:
+            return ['loc', a.__class__.__name__, 'exception ' + repr(e)[:80], None]
+    return None
+
+
+def read_caches(root):
+    """an ordinary user looking at the tree before editing: every location is computed and cached"""
+    for f in root.walk(True):
+        try:
+            f.loc
+            f.bloc
+            f.pars()
+        except Exception:
+            pass
+
+
 def run_sequence(arg):
     """(src, seed, k, ops) -> list of records (JSON-like)"""
     src, seed, k, ops = arg[:4]
@@ -618,6 +726,7 @@ def run_sequence(arg):
     except Exception:
         return out
     prev = None
+    prev_loc_bad = None
     hist = []
     for step in range(k):
         src0 = root.src
@@ -635,21 +744,47 @@ def run_sequence(arg):
         r = {'src': src0, 'op': op, 'step': step}
         rid = id(root)
         call = None
-        if script:
+        read_caches(root)
+        if script and script[step][0] == 'raw':
+            _, path, new = script[step]
+            op = r['op'] = 'raw-put'
+            rect = cpy_bloc(tree0, lines, path)
+            node = root.child_from_path(_astpath(path))
+            r.update(rect=rect, new=new, rk='scripted-history', nk='scripted', on=node.a.__class__.__name__, node_path=path)
+            call = lambda: node.replace(new, raw=True, pars=False)
+        elif script:
             new, *rect = script[step]
+            spelled = rect.pop() if len(rect) == 5 else list(rect)      # optional 6th entry: the coordinates as spelled in the call
             op = r['op'] = 'put_src'
-            r.update(rect=list(rect), new=new, rk='scripted-history', nk='scripted', on='Module')
-            call = lambda: root.put_src(new, *rect, 'reparse')
+            r.update(rect=list(rect), new=new, rk='scripted-history', nk='scripted', on='Module', spelled=list(spelled))
+            try:
+                got = root.get_src(*spelled)
+                if got != splice_get(lines, *rect):
+                    r['get_src_bad'] = [got[:80], splice_get(lines, *rect)[:80]]
+            except Exception as e:
+                r['get_src_bad'] = ['raised ' + repr(e)[:80], splice_get(lines, *rect)[:80]]
+            call = lambda: root.put_src(new, *spelled, 'reparse')
         elif op == 'put_src':
             tb = token_bounds(src0)
             near = gen_rect_near(rng, tree0, lines, prev) if prev is not None and rng.random() < 0.6 else None
             rect, rk = near if near else gen_rect(rng, src0, lines, spans, tb)
             new, nk = gen_new(rng, lines, *rect, spans)
             on = root if rng.random() < 0.6 else (_pick_fst_node(root, rng) or root)
-            r.update(rect=list(rect), new=new, rk=rk, nk=nk, on=on.a.__class__.__name__)
-            call = lambda: on.put_src(new, *rect, 'reparse')
+            spelled = respell(rng, rect, lines)
+            r.update(rect=list(rect), new=new, rk=rk, nk=nk, on=on.a.__class__.__name__, spelled=spelled)
+            try:
+                got = root.get_src(*spelled)
+                if got != splice_get(lines, *rect):
+                    r['get_src_bad'] = [got[:80], splice_get(lines, *rect)[:80]]
+            except Exception as e:
+                r['get_src_bad'] = ['raised ' + repr(e)[:80], splice_get(lines, *rect)[:80]]
+            call = lambda: on.put_src(new, *spelled, 'reparse')
         elif op == 'raw-put':
-            node = _pick_fst_node(root, rng, rng.random() < 0.4)
+            node = None
+            if prev is not None and rng.random() < 0.6:
+                after = [f for f in root.walk(True) if f is not root and f.loc is not None and f.loc.ln == prev[0] and f.loc.col > prev[1]]
+                node = rng.choice(after) if after else None
+            node = node or _pick_fst_node(root, rng, rng.random() < 0.4)
             if node is None:
                 break
             path = _path_of(root, node)
@@ -686,6 +821,11 @@ def run_sequence(arg):
                 hist.append([r['new'], *r['rect']])
         else:
             hist = None
+        r['loc_bad_before'] = prev_loc_bad
+        try:
+            r['loc_bad'] = prev_loc_bad = loc_mismatch(root) if root.a.__class__.__name__ == 'Module' else None
+        except Exception as e:
+            r['loc_bad'] = ['loc', '?', 'exception ' + repr(e)[:80], None]
         r['registry'] = int(root in fc._MODIFYING)      # no entry for this tree may be left in the process-global registry after a call
         prev = (r['rect'][0], r['rect'][1])
         r['root_same'] = id(root) == rid and root.root is root
@@ -1015,6 +1155,8 @@ def phase_e(arg):
         res['fail'].append((sig('registry-not-empty'),
                             f'the entry of this tree is still in fst_core._MODIFYING after the call '
                             f'({"raised " + raised[0] if raised else "returned"})'))
+    if r.get('get_src_bad'):
+        res['fail'].append((f'C10|get_src|text-differs', f'get_src{tuple(r["spelled"])} gave {r["get_src_bad"][0]!r}, plain Python slicing gives {r["get_src_bad"][1]!r}'))
     # (d) root identity
     if not r['root_same']:
         res['fail'].append((sig('root-identity-changed'), 'the root object changed identity'))
@@ -1043,8 +1185,16 @@ def phase_e(arg):
     # rectangle actually used (raw put): must be the CPython span of the node
     rect_ev = ev_of(r, 'rect') if reached else None
     if rect_ev is not None and (rect_ev['rect'] != list(rect) or '\n'.join(rect_ev['new_lines']) != r['new']):
-        res['tally']['rect_differs_from_cpython_span'] = True   # location / code normalisation of the put: other properties
-        return res
+        if r['op'] == 'raw-put':
+            if r.get('loc_bad_before'):
+                pass        # the locations were already wrong before this step (stale cache): judged below by the splice and the tree
+            else:
+                res['tally']['rect_differs_from_cpython_span'] = True   # location / code normalisation of the put: other properties
+                return res
+        elif r['op'] == 'put_src':
+            res['fail'].append((sig('coordinates-misread'),
+                                f'put_src{tuple(r.get("spelled", rect))} replaced the rectangle {rect_ev["rect"]}, Python index semantics give {list(rect)}'))
+            return res
     mode = c['mode'] if c else None
     res['tally']['mode'] = mode
     # the model of the repaired `_reparse_raw`: the incremental result is used iff the wrapper parses, the node is found and
@@ -1114,6 +1264,9 @@ def phase_e(arg):
         res['hyp'] = 'hold' if dP == dR else 'fail'
     if r['dump_after'] == dR:
         res['tally']['equal_full_parse'] = True
+        if r.get('loc_bad'):
+            k, kind, got, exp = r['loc_bad']
+            res['fail'].append((sig(f'stale-location|{k}'), f'source and tree equal a full parse but {kind}.{k} reports {got}, its positions give {exp}'))
         return res
     # the tree is not the full parse: classify
     if P is None or dP != r['dump_after']:
